@@ -19,7 +19,11 @@
 // tfu_pre / has_service / svc_filter / un_sum / the moved activities from the removed nodes to the nodes of the whole tour.
 // The block after it ("CLOSURE") is NOT copied either: the induction step of C10 / C09 / C11 -- the result of remove_segment
 // satisfies rs_ok again -- proved from the effect clauses of the contract (rs_effect): so_* (sched_ok in groups), listing_exact
-// (premise A-listing), listing_follows, listings_kept, lemma_closure_* and their helpers (lemma_first_pos: text of slices/admission.vs).
+// (premise A-listing), listing_follows, listings_kept, maps_at, tour_facts, shrunk_tour_facts, tr_step, lemma_closure_* and their
+// helpers (lemma_first_pos: text of slices/admission.vs).  Robustness rules of that block: the big open conjunctions (rs_ok, sched_ok,
+// rs_effect) are unfolded only in the extraction lemmas lemma_rs_parts / lemma_so_parts / lemma_effect_*; every other lemma hides them;
+// facts about the maps are POINTWISE (maps_at / lemma_maps_at for one id, lemma_vehicle_ok_at, lemma_formation_at, lemma_listed_at:
+// no quantified helper facts that trigger on every `contains_key` term); every lemma verifies in isolation and under other Z3 seeds.
 use vstd::std_specs::cmp::OrdSpec;
 
 // A-display: `{}` of a Segment (hand written Display impl of the repository; a no-op outside verus!)
@@ -1115,15 +1119,17 @@ impl Schedule {
         &&& usage_exact(s1.depot_usage@, &self.network, s1.vehicles@, s1.tours@)
         &&& self.transitions_follow(v, s1.next_period_transitions@, s1.maintenance_violation, s1.vehicles@, s1.tours@)
     }
-    /// what rs_effect says about the two maps that carry the vehicles (both cases): every other vehicle / tour is untouched; the
-    /// provider is gone (whole-tour case) or keeps its vehicle entry and has the shrunk tour (partial case)
-    pub open spec fn maps_follow(&self, segment: Segment, v: VehicleIdx, s1: &Schedule) -> bool {
-        &&& forall|u: VehicleIdx| u != v ==> (#[trigger] s1.tours@.contains_key(u) <==> self.tours@.contains_key(u))
-        &&& forall|u: VehicleIdx| u != v && self.tours@.contains_key(u) ==> #[trigger] s1.tours@[u] == self.tours@[u]
-        &&& forall|u: VehicleIdx| u != v ==> (#[trigger] s1.vehicles@.contains_key(u) <==> self.vehicles@.contains_key(u))
-        &&& forall|u: VehicleIdx| u != v && self.vehicles@.contains_key(u) ==> #[trigger] s1.vehicles@[u] == self.vehicles@[u]
-        &&& self.whole_tour(segment, v) ==> !s1.tours@.contains_key(v) && !s1.vehicles@.contains_key(v)
-        &&& !self.whole_tour(segment, v) ==> s1.tours@.contains_key(v) && s1.vehicles@.contains_key(v) && s1.vehicles@[v] == self.vehicles@[v]
+    /// what rs_effect says about the two maps that carry the vehicles (both cases), for ONE id u (pointwise on purpose: a quantified
+    /// version triggers on every `contains_key` term of a proof context): every other vehicle / tour is untouched; the provider is gone
+    /// (whole-tour case) or keeps its vehicle entry and has a tour (partial case); no vehicle / tour is added; a vehicle keeps its type
+    pub open spec fn maps_at(&self, segment: Segment, v: VehicleIdx, s1: &Schedule, u: VehicleIdx) -> bool {
+        &&& self.vehicles@.contains_key(v) && self.tours@.contains_key(v)
+        &&& u != v ==> (s1.tours@.contains_key(u) <==> self.tours@.contains_key(u)) && (s1.vehicles@.contains_key(u) <==> self.vehicles@.contains_key(u))
+        &&& u == v ==> (s1.tours@.contains_key(u) <==> !self.whole_tour(segment, v)) && (s1.vehicles@.contains_key(u) <==> !self.whole_tour(segment, v))
+        &&& u != v && self.tours@.contains_key(u) ==> s1.tours@[u] == self.tours@[u]
+        &&& s1.vehicles@.contains_key(u) ==> self.vehicles@.contains_key(u) && s1.vehicles@[u] == self.vehicles@[u] && s1.type_of(u) == self.type_of(u)
+        &&& s1.tours@.contains_key(u) <==> s1.vehicles@.contains_key(u)
+        &&& self.tours@.contains_key(u) <==> self.vehicles@.contains_key(u)
     }
     /// a SUFFICIENT condition for listing_exact(result) in terms of the old listing: the listing of the result follows the grouped
     /// id lists, whose change IS proved -- unchanged in the partial case (vehicle_set_unchanged: network and grouped id lists are
@@ -1217,13 +1223,242 @@ pub proof fn lemma_kept(t: &Tour, lo: int, hi: int)
         }
     }
 }
+// ---- the bundles, conjunct by conjunct: the ONLY places where rs_ok / sched_ok / rs_effect are unfolded; every closure lemma below
+// hides them and works on the conjuncts it needs (robustness: small contexts, no big open conjunctions) ----
+/// rs_ok, conjunct by conjunct
+pub proof fn lemma_rs_parts(s: &Schedule)
+    requires s.rs_ok(),
+    ensures s.sched_ok(), s.ids_ok(), s.formations_ok(), s.transitions_ok(), usage_exact(s.depot_usage@, &s.network, s.vehicles@, s.tours@),
+{
+    hide(Schedule::sched_ok);
+    hide(Schedule::formations_ok);
+    hide(Schedule::transitions_ok);
+    hide(ids_valid);
+    hide(usage_exact);
+}
+/// sched_ok, group by group
+pub proof fn lemma_so_parts(s: &Schedule)
+    requires s.rs_ok(),
+    ensures s.so_network(), s.so_listing(), s.so_vehicles(), s.so_costs_cover(), s.so_costs_small(),
+{
+    hide(Schedule::rs_ok);
+    hide(Schedule::sched_ok);
+    hide(Schedule::so_network);
+    hide(Schedule::so_listing);
+    hide(Schedule::so_vehicles);
+    hide(Schedule::so_costs_cover);
+    hide(Schedule::so_costs_small);
+    lemma_rs_parts(s);
+    lemma_sched_ok_split(s);
+}
+impl Schedule {
+    /// what a valid schedule provides for the tour of a real vehicle (the tour clauses of vehicle_ok)
+    pub open spec fn tour_facts(&self, v: VehicleIdx) -> bool {
+        let t = self.tours@[v];
+        t.wf() && !t.is_dummy && *t.network == *self.network && t.caches_ok() && tour_len_ok(t.nodes@)
+    }
+    /// rs_effect, partial case: the provider's new tour
+    pub open spec fn shrunk_tour_facts(&self, segment: Segment, v: VehicleIdx, s1: &Schedule) -> bool {
+        let t = s1.tours@[v];
+        &&& s1.tours@.contains_key(v)
+        &&& t.nodes@ == self.kept_nodes(segment, v)
+        &&& t.is_dummy == self.tours@[v].is_dummy && t.network == self.tours@[v].network
+        &&& t.wf() && t.caches_ok()
+    }
+}
+/// vehicle_ok, the clauses about the tour and the existence of the type's rotation-cycle structure
+pub proof fn lemma_vehicle_ok_parts(s: &Schedule, u: VehicleIdx)
+    requires s.vehicle_ok(u),
+    ensures s.vehicles@.contains_key(u), s.tour_facts(u), s.next_period_transitions@.contains_key(s.type_of(u)),
+{
+    hide(Tour::wf);
+    hide(Tour::caches_ok);
+    hide(TView::wf_cycles);
+    hide(TView::wf_lookup);
+}
+/// vehicle_ok from its parts: a valid tour, a rotation-cycle structure of the vehicle's type that is consistent with the tours and holds the vehicle
+pub proof fn lemma_vehicle_ok_from(s1: &Schedule, u: VehicleIdx)
+    requires
+        s1.vehicles@.contains_key(u), s1.tour_facts(u),
+        s1.next_period_transitions@.contains_key(s1.type_of(u)),
+        s1.next_period_transitions@[s1.type_of(u)].wf(&s1.network, s1.tours@),
+        s1.next_period_transitions@[s1.type_of(u)].has_vehicle(u),
+    ensures s1.vehicle_ok(u),
+{
+    hide(Tour::wf);
+    hide(Tour::caches_ok);
+    hide(TView::wf_cycles);
+    hide(TView::wf_lookup);
+    hide(TView::wf_counters);
+    hide(TView::wf_empty);
+    hide(tour_ok);
+    let tr = s1.transition_of(u);
+    assert(tr == s1.next_period_transitions@[s1.type_of(u)]);
+    assert(tr@.wf_tours(&s1.network, s1.tours@));
+    assert forall|i: int, a: int| 0 <= i < tr.n() && 0 <= a < tr.cyc(i).len() implies s1.tours@.contains_key(#[trigger] tr.cyc(i)[a]) by {
+        assert(s1.tours@.contains_key(tr@.cyc(i)[a]));
+    }
+}
+/// a consistent rotation-cycle structure has duplicate-free, disjoint cycles and an exact lookup
+pub proof fn lemma_wf_parts(t: Transition, net: &Network, tours: TourMap)
+    requires t.wf(net, tours),
+    ensures t@.wf_cycles(), t@.wf_lookup(),
+{
+    hide(TView::wf_cycles);
+    hide(TView::wf_lookup);
+    hide(TView::wf_tours);
+    hide(TView::wf_counters);
+    hide(TView::wf_empty);
+}
+/// the provider (a real vehicle of a valid schedule): its entries and its tour
+pub proof fn lemma_provider_facts(s: &Schedule, v: VehicleIdx)
+    requires s.rs_ok(), s.vehicles@.contains_key(v),
+    ensures s.tours@.contains_key(v), s.tour_facts(v), s.ids_ok(), s.vehicle_ok(v),
+{
+    hide(Schedule::rs_ok);
+    hide(Schedule::sched_ok);
+    hide(Schedule::formations_ok);
+    hide(Schedule::transitions_ok);
+    hide(Schedule::vehicle_ok);
+    hide(Schedule::tour_facts);
+    hide(usage_exact);
+    lemma_rs_parts(s);
+    lemma_so_parts(s);
+    assert(s.tours@.contains_key(v));
+    assert(s.vehicle_ok(v));
+    lemma_vehicle_ok_parts(s, v);
+}
+/// rs_effect, the conjuncts that both cases share
+pub proof fn lemma_effect_basic(s: &Schedule, segment: Segment, v: VehicleIdx, s1: &Schedule)
+    requires s.rs_effect(segment, v, s1),
+    ensures
+        s.removes(segment, v), s.vehicles@.contains_key(v),
+        s1.network == s.network,
+        s1.ids_ok(),
+        s.formations_follow(s.removed_nodes(segment, v), v, s1.train_formations@),
+        usage_exact(s1.depot_usage@, &s.network, s1.vehicles@, s1.tours@),
+        s.transitions_follow(v, s1.next_period_transitions@, s1.maintenance_violation, s1.vehicles@, s1.tours@),
+{
+    hide(Schedule::seg_removable);
+    hide(Schedule::whole_tour);
+    hide(Schedule::vehicle_gone);
+    hide(Schedule::others_untouched);
+    hide(Schedule::provider_shrunk);
+    hide(Schedule::formations_follow);
+    hide(Schedule::transitions_follow);
+    hide(Schedule::other_tours_untouched);
+    hide(Schedule::removed_nodes);
+    hide(ids_valid);
+    hide(usage_exact);
+}
+/// rs_effect, costs (C09)
+pub proof fn lemma_effect_costs(s: &Schedule, segment: Segment, v: VehicleIdx, s1: &Schedule)
+    requires s.rs_effect(segment, v, s1),
+    ensures
+        s.whole_tour(segment, v) ==> s1.costs == s.costs - s.tours@[v].costs,
+        !s.whole_tour(segment, v) ==> s1.costs == s.costs + s1.tours@[v].costs - s.tours@[v].costs,
+{
+    hide(Schedule::removes);
+    hide(Schedule::whole_tour);
+    hide(Schedule::vehicle_gone);
+    hide(Schedule::others_untouched);
+    hide(Schedule::provider_shrunk);
+    hide(Schedule::formations_follow);
+    hide(Schedule::transitions_follow);
+    hide(Schedule::other_tours_untouched);
+    hide(Schedule::removed_nodes);
+    hide(ids_valid);
+    hide(usage_exact);
+}
+/// rs_effect, the grouped id lists: untouched (partial case); the list of the provider's type loses one occurrence of the id and
+/// stays sorted, the other lists are untouched (whole-tour case)
+pub proof fn lemma_effect_grouped(s: &Schedule, segment: Segment, v: VehicleIdx, s1: &Schedule)
+    requires s.rs_effect(segment, v, s1),
+    ensures
+        s.whole_tour(segment, v) ==> s.vehicle_gone_c(v, s1.vehicles@, s1.tours@, s1.vehicle_ids_grouped_and_sorted@)
+            && s1.vehicle_ids_grouped_and_sorted@ == s.vehicle_ids_grouped_and_sorted@.insert(s.type_of(v), s1.vehicle_ids_grouped_and_sorted@[s.type_of(v)]),
+        !s.whole_tour(segment, v) ==> s1.vehicle_ids_grouped_and_sorted@ == s.vehicle_ids_grouped_and_sorted@,
+{
+    hide(Schedule::removes);
+    hide(Schedule::whole_tour);
+    hide(Schedule::vehicle_gone_c);
+    hide(Schedule::provider_shrunk);
+    hide(Schedule::formations_follow);
+    hide(Schedule::transitions_follow);
+    hide(Schedule::other_tours_untouched);
+    hide(Schedule::removed_nodes);
+    hide(ids_valid);
+    hide(usage_exact);
+}
+/// rs_effect, partial case: the provider's new tour
+pub proof fn lemma_effect_shrunk(s: &Schedule, segment: Segment, v: VehicleIdx, s1: &Schedule)
+    requires s.rs_effect(segment, v, s1), !s.whole_tour(segment, v),
+    ensures s.shrunk_tour_facts(segment, v, s1),
+{
+    hide(Schedule::removes);
+    hide(Schedule::whole_tour);
+    hide(Schedule::formations_follow);
+    hide(Schedule::transitions_follow);
+    hide(Schedule::other_tours_untouched);
+    hide(Schedule::removed_nodes);
+    hide(Schedule::kept_nodes);
+    hide(Tour::wf);
+    hide(Tour::caches_ok);
+    hide(ids_valid);
+    hide(usage_exact);
+}
+/// rs_effect, the maps `vehicles` and `tours` as functions of the old ones
+pub proof fn lemma_effect_maps(s: &Schedule, segment: Segment, v: VehicleIdx, s1: &Schedule)
+    requires s.rs_effect(segment, v, s1),
+    ensures
+        s.whole_tour(segment, v) ==> s1.vehicles@ == s.vehicles@.remove(v) && s1.tours@ == s.tours@.remove(v),
+        !s.whole_tour(segment, v) ==> s1.vehicles@ == s.vehicles@ && s1.tours@.contains_key(v) && s.other_tours_untouched(v, s1.tours@),
+{
+    hide(Schedule::removes);
+    hide(Schedule::whole_tour);
+    hide(Schedule::vehicle_gone);
+    hide(Schedule::formations_follow);
+    hide(Schedule::transitions_follow);
+    hide(Schedule::other_tours_untouched);
+    hide(Schedule::removed_nodes);
+    hide(Schedule::kept_nodes);
+    hide(Tour::wf);
+    hide(Tour::caches_ok);
+    hide(ids_valid);
+    hide(usage_exact);
+}
+/// the effect clauses, read as facts about the entries of ONE id in the maps `vehicles` and `tours`
+pub proof fn lemma_maps_at(s: &Schedule, segment: Segment, v: VehicleIdx, s1: &Schedule, u: VehicleIdx)
+    requires s.rs_ok(), s.rs_effect(segment, v, s1),
+    ensures s.maps_at(segment, v, s1, u),
+{
+    hide(Schedule::rs_ok);
+    hide(Schedule::rs_effect);
+    hide(Schedule::sched_ok);
+    hide(Schedule::formations_ok);
+    hide(Schedule::transitions_ok);
+    hide(Schedule::transitions_follow);
+    hide(Schedule::formations_follow);
+    hide(Schedule::removes);
+    hide(Schedule::whole_tour);
+    hide(Schedule::removed_nodes);
+    hide(usage_exact);
+    hide(sorted_cmp);
+    lemma_rs_parts(s);
+    lemma_effect_basic(s, segment, v, s1);
+    lemma_effect_maps(s, segment, v, s1);
+    assert(s.ids_ok() && s1.ids_ok());
+    assert(s.tours@.contains_key(v));
+}
+
 /// every removed activity is an inner node of the provider's tour: its formation lists the provider (formations_ok)
 pub proof fn lemma_removed_listed(s: &Schedule, segment: Segment, v: VehicleIdx)
-    requires s.rs_ok(), s.removes(segment, v),
+    requires s.formations_ok(), s.removes(segment, v), s.tours@.contains_key(v), s.tour_facts(v),
     ensures
         forall|n: NodeIdx| moved_activity(&s.network, s.removed_nodes(segment, v), n) ==> has_vehicle((#[trigger] s.train_formations@[n]).formation@, v),
 {
-    lemma_provider(s, v);
+    hide(Tour::caches_ok);
+    hide(has_vehicle);
     let t0 = s.tours@[v];
     let lo = s.seg_lo(segment, v);
     let hi = s.seg_hi(segment, v);
@@ -1239,112 +1474,212 @@ pub proof fn lemma_removed_listed(s: &Schedule, segment: Segment, v: VehicleIdx)
     }
 }
 
-/// the effect clauses, read as facts about the maps `vehicles` and `tours`
-pub proof fn lemma_effect_maps(s: &Schedule, segment: Segment, v: VehicleIdx, s1: &Schedule)
-    requires s.rs_ok(), s.rs_effect(segment, v, s1),
-    ensures
-        s.maps_follow(segment, v, s1),
-        forall|u: VehicleIdx| #[trigger] s1.vehicles@.contains_key(u) ==> s.vehicles@.contains_key(u) && s1.type_of(u) == s.type_of(u) && s1.vehicles@[u] == s.vehicles@[u],
-        forall|u: VehicleIdx| #[trigger] s1.tours@.contains_key(u) ==> s.tours@.contains_key(u) && s1.vehicles@.contains_key(u),
-{
-    hide(Schedule::rs_ok);
-    hide(Schedule::transitions_follow);
-    hide(Schedule::formations_follow);
-    hide(usage_exact);
-    hide(usage_exact_for);
-    hide(Schedule::seg_removable);
-    hide(Schedule::whole_tour);
-    hide(Schedule::provider_shrunk);
-    hide(Schedule::real_tour_ok);
-    hide(sorted_cmp);
-    hide(ids_lose);
-    lemma_provider(s, v);
-    assert(s.ids_ok() && s1.ids_ok());
-    if s.whole_tour(segment, v) {
-        assert(s1.vehicles@ == s.vehicles@.remove(v) && s1.tours@ == s.tours@.remove(v));
-    } else {
-        assert(s1.vehicles@ == s.vehicles@ && s.other_tours_untouched(v, s1.tours@));
-        reveal(Schedule::provider_shrunk);
-    }
-}
-
 // ---- sched_ok: network, vehicle_ok ----------------------------------------------------------------------
+/// the shrunk tour of the provider is a valid tour again (the magnitude: it is not longer than the old one)
+pub proof fn lemma_shrunk_tour_facts(s: &Schedule, segment: Segment, v: VehicleIdx, s1: &Schedule)
+    requires s.removes(segment, v), s.tour_facts(v), s.shrunk_tour_facts(segment, v, s1), s1.network == s.network,
+    ensures s1.tour_facts(v),
+{
+    hide(Tour::caches_ok);
+    hide(Schedule::seg_removable);
+    lemma_seg_range(s, segment, v);
+    let t0 = s.tours@[v];
+    lemma_kept(&t0, s.seg_lo(segment, v), s.seg_hi(segment, v));
+}
 /// CLOSURE, sched_ok (network; every stored tour is a valid tour of a real vehicle held by a consistent rotation-cycle structure)
 pub proof fn lemma_closure_vehicles(s: &Schedule, segment: Segment, v: VehicleIdx, s1: &Schedule)
     requires s.rs_ok(), s.rs_effect(segment, v, s1),
     ensures s1.so_network(), s1.so_vehicles(),
 {
+    hide(Schedule::rs_ok);
+    hide(Schedule::rs_effect);
+    hide(Schedule::vehicle_ok);
+    hide(Schedule::tour_facts);
+    hide(Schedule::shrunk_tour_facts);
+    hide(Schedule::so_listing);
+    hide(Schedule::so_costs_cover);
     hide(Schedule::formations_follow);
+    hide(Schedule::transitions_follow);
+    hide(Schedule::removes);
+    hide(Schedule::whole_tour);
+    hide(Schedule::maps_at);
+    hide(TView::wf);
+    hide(ids_valid);
     hide(usage_exact);
-    lemma_provider(s, v);
-    lemma_effect_maps(s, segment, v, s1);
-    lemma_seg_range(s, segment, v);
-    let t0 = s.tours@[v];
-    lemma_kept(&t0, s.seg_lo(segment, v), s.seg_hi(segment, v));
-    let trs1 = s1.next_period_transitions@;
+    hide(depots_ok);
+    lemma_so_parts(s);
+    lemma_effect_basic(s, segment, v, s1);
+    assert(s1.so_network());
     assert forall|u: VehicleIdx| #[trigger] s1.tours@.contains_key(u) implies s1.vehicle_ok(u) by {
-        assert(s.tours@.contains_key(u) && s1.vehicles@.contains_key(u));
-        assert(s.vehicle_ok(u));
-        let ty = s1.type_of(u);
-        assert(ty == s.type_of(u));
-        assert(s.next_period_transitions@.contains_key(ty));
-        assert(trs1.contains_key(ty));
-        assert(trs1[ty].wf(&s.network, s1.tours@));
-        assert(trs1[ty].has_vehicle(u));
-        let t = s1.tours@[u];
-        if u != v {
-            assert(t == s.tours@[u]);
-        } else {
-            assert(!s.whole_tour(segment, v));
-            assert(s.provider_shrunk(segment, v, s1.tours@));
-            assert(t.nodes@ == s.kept_nodes(segment, v));
-            assert(tour_len_ok(t.nodes@));
-        }
+        lemma_vehicle_ok_at(s, segment, v, s1, u);
     }
+}
+/// ... for one vehicle
+pub proof fn lemma_vehicle_ok_at(s: &Schedule, segment: Segment, v: VehicleIdx, s1: &Schedule, u: VehicleIdx)
+    requires s.rs_ok(), s.rs_effect(segment, v, s1), s1.tours@.contains_key(u),
+    ensures s1.vehicle_ok(u),
+{
+    hide(Schedule::rs_ok);
+    hide(Schedule::rs_effect);
+    hide(Schedule::vehicle_ok);
+    hide(Schedule::tour_facts);
+    hide(Schedule::shrunk_tour_facts);
+    hide(Schedule::so_listing);
+    hide(Schedule::so_costs_cover);
+    hide(Schedule::so_network);
+    hide(Schedule::formations_follow);
+    hide(Schedule::removes);
+    hide(Schedule::whole_tour);
+    hide(TView::wf);
+    hide(ids_valid);
+    hide(usage_exact);
+    lemma_so_parts(s);
+    lemma_effect_basic(s, segment, v, s1);
+    lemma_maps_at(s, segment, v, s1, u);
+    lemma_provider_facts(s, v);
+    assert(s.tours@.contains_key(u) && s1.vehicles@.contains_key(u));
+    assert(s.vehicle_ok(u));
+    lemma_vehicle_ok_parts(s, u);
+    let trs1 = s1.next_period_transitions@;
+    let ty = s1.type_of(u);
+    assert(ty == s.type_of(u));
+    assert(trs1.contains_key(ty));
+    assert(trs1[ty].wf(&s.network, s1.tours@));
+    assert(vtype(s1.vehicles@[u]) == ty);
+    assert(trs1[ty].has_vehicle(u));
+    if u != v {
+        assert(s1.tours@[u] == s.tours@[u]);
+        reveal(Schedule::tour_facts);
+        assert(s1.tour_facts(u));
+    } else {
+        assert(!s.whole_tour(segment, v));
+        lemma_effect_shrunk(s, segment, v, s1);
+        lemma_shrunk_tour_facts(s, segment, v, s1);
+    }
+    lemma_vehicle_ok_from(s1, u);
 }
 
 // ---- formations_ok -----------------------------------------------------------------------------------------
-/// CLOSURE, formations_ok: every activity has a formation; the formation of every inner node of a tour lists the vehicle
-pub proof fn lemma_closure_formations(s: &Schedule, segment: Segment, v: VehicleIdx, s1: &Schedule)
-    requires s.rs_ok(), s.rs_effect(segment, v, s1),
-    ensures s1.formations_ok(),
+/// every formation is still there
+pub proof fn lemma_form_keys(s: &Schedule, removed: Seq<NodeIdx>, v: VehicleIdx, tf1: Formations, n: NodeIdx)
+    requires s.formations_follow(removed, v, tf1),
+    ensures tf1.contains_key(n) <==> s.train_formations@.contains_key(n),
 {
-    hide(Schedule::transitions_follow);
-    hide(usage_exact);
-    lemma_provider(s, v);
-    lemma_effect_maps(s, segment, v, s1);
-    lemma_seg_range(s, segment, v);
-    lemma_removed_listed(s, segment, v);
+}
+/// the formation of a node that another vehicle u serves still lists u
+pub proof fn lemma_form_other(s: &Schedule, removed: Seq<NodeIdx>, v: VehicleIdx, u: VehicleIdx, n: NodeIdx, tf1: Formations)
+    requires
+        s.formations_follow(removed, v, tf1), u != v,
+        has_vehicle(s.train_formations@[n].formation@, u),
+        moved_activity(&s.network, removed, n) ==> has_vehicle(s.train_formations@[n].formation@, v),
+    ensures has_vehicle(tf1[n].formation@, u),
+{
+    hide(has_vehicle);
+    let tf0 = s.train_formations@;
+    if moved_activity(&s.network, removed, n) {
+        lemma_has_vehicle_remove(tf0[n].formation@, v, u);
+        assert(tf1[n].formation@ == tf0[n].formation@.remove(first_pos(tf0[n].formation@, v)));
+    } else {
+        assert(tf1[n] == tf0[n]);
+    }
+}
+/// a kept inner node of the provider's tour is none of the removed nodes: its formation is untouched and lists the provider
+pub proof fn lemma_form_kept(s: &Schedule, segment: Segment, v: VehicleIdx, i: int, tf1: Formations)
+    requires
+        s.formations_ok(), s.removes(segment, v), s.tours@.contains_key(v), s.tour_facts(v),
+        s.formations_follow(s.removed_nodes(segment, v), v, tf1),
+        0 < i < s.kept_nodes(segment, v).len() - 1,
+    ensures has_vehicle(tf1[s.kept_nodes(segment, v)[i]].formation@, v),
+{
+    hide(Tour::caches_ok);
+    hide(Schedule::seg_removable);
+    hide(has_vehicle);
     let t0 = s.tours@[v];
     let lo = s.seg_lo(segment, v);
     let hi = s.seg_hi(segment, v);
     let removed = s.removed_nodes(segment, v);
     let tf0 = s.train_formations@;
-    let tf1 = s1.train_formations@;
+    lemma_seg_range(s, segment, v);
     lemma_kept(&t0, lo, hi);
+    let j = if i < lo { i } else { i + (hi + 1 - lo) };
+    let n = s.kept_nodes(segment, v)[i];
+    assert(n == t0.nodes@[j]);
+    assert(0 < j < t0.nodes@.len() - 1 && !(lo <= j <= hi));
+    assert(has_vehicle(tf0[s.tours@[v].nodes@[j]].formation@, v));
+    assert(!removed.contains(t0.nodes@[j]));
+    assert(!moved_activity(&s.network, removed, n));
+    assert(tf1[n] == tf0[n]);
+}
+/// CLOSURE, formations_ok: every activity has a formation; the formation of every inner node of a tour lists the vehicle
+pub proof fn lemma_closure_formations(s: &Schedule, segment: Segment, v: VehicleIdx, s1: &Schedule)
+    requires s.rs_ok(), s.rs_effect(segment, v, s1),
+    ensures s1.formations_ok(),
+{
+    hide(Schedule::rs_ok);
+    hide(Schedule::rs_effect);
+    hide(Schedule::formations_follow);
+    hide(Schedule::transitions_follow);
+    hide(Schedule::removes);
+    hide(Schedule::removed_nodes);
+    hide(has_vehicle);
+    hide(ids_valid);
+    hide(usage_exact);
+    lemma_rs_parts(s);
+    lemma_effect_basic(s, segment, v, s1);
+    let removed = s.removed_nodes(segment, v);
+    let tf0 = s.train_formations@;
+    let tf1 = s1.train_formations@;
     assert forall|n: NodeIdx| s1.network.has(n) && s1.network.sp_node(n).sp_is_activity() implies #[trigger] tf1.contains_key(n) by {
         assert(tf0.contains_key(n));
+        lemma_form_keys(s, removed, v, tf1, n);
     }
     assert forall|u: VehicleIdx, i: int| s1.tours@.contains_key(u) && 0 < i < s1.tours@[u].nodes@.len() - 1
         implies has_vehicle(tf1[#[trigger] s1.tours@[u].nodes@[i]].formation@, u) by {
-        let n = s1.tours@[u].nodes@[i];
-        if u != v {
-            assert(s.tours@.contains_key(u) && s1.tours@[u] == s.tours@[u]);
-            assert(has_vehicle(tf0[s.tours@[u].nodes@[i]].formation@, u));
-            if moved_activity(&s.network, removed, n) {
-                assert(has_vehicle(tf0[n].formation@, v));
-                lemma_has_vehicle_remove(tf0[n].formation@, v, u);
-            }
-        } else {
-            assert(!s.whole_tour(segment, v));
-            assert(s1.tours@[v].nodes@ == s.kept_nodes(segment, v));
-            let j = if i < lo { i } else { i + (hi + 1 - lo) };
-            assert(s.kept_nodes(segment, v)[i] == t0.nodes@[j]);
-            assert(0 < j < t0.nodes@.len() - 1 && !(lo <= j <= hi));
-            assert(has_vehicle(tf0[s.tours@[v].nodes@[j]].formation@, v));
-            assert(!removed.contains(t0.nodes@[j]));
-            assert(!moved_activity(&s.network, removed, n));
-        }
+        lemma_formation_at(s, segment, v, s1, u, i);
+    }
+}
+/// ... for one inner node of one tour
+pub proof fn lemma_formation_at(s: &Schedule, segment: Segment, v: VehicleIdx, s1: &Schedule, u: VehicleIdx, i: int)
+    requires s.rs_ok(), s.rs_effect(segment, v, s1), s1.tours@.contains_key(u), 0 < i < s1.tours@[u].nodes@.len() - 1,
+    ensures has_vehicle(s1.train_formations@[s1.tours@[u].nodes@[i]].formation@, u),
+{
+    hide(Schedule::rs_ok);
+    hide(Schedule::rs_effect);
+    hide(Schedule::sched_ok);
+    hide(Schedule::transitions_ok);
+    hide(Schedule::vehicle_ok);
+    hide(Schedule::tour_facts);
+    hide(Schedule::shrunk_tour_facts);
+    hide(Schedule::formations_follow);
+    hide(Schedule::transitions_follow);
+    hide(Schedule::removes);
+    hide(Schedule::whole_tour);
+    hide(Schedule::kept_nodes);
+    hide(Schedule::removed_nodes);
+    hide(has_vehicle);
+    hide(moved_activity);
+    hide(ids_valid);
+    hide(usage_exact);
+    lemma_rs_parts(s);
+    lemma_effect_basic(s, segment, v, s1);
+    lemma_maps_at(s, segment, v, s1, u);
+    lemma_provider_facts(s, v);
+    let removed = s.removed_nodes(segment, v);
+    let tf0 = s.train_formations@;
+    let tf1 = s1.train_formations@;
+    let n = s1.tours@[u].nodes@[i];
+    if u != v {
+        assert(s.tours@.contains_key(u) && s1.tours@[u] == s.tours@[u]);
+        assert(has_vehicle(tf0[s.tours@[u].nodes@[i]].formation@, u));
+        lemma_removed_listed(s, segment, v);
+        assert(moved_activity(&s.network, removed, n) ==> has_vehicle(tf0[n].formation@, v));
+        lemma_form_other(s, removed, v, u, n, tf1);
+    } else {
+        assert(!s.whole_tour(segment, v));
+        lemma_effect_shrunk(s, segment, v, s1);
+        reveal(Schedule::shrunk_tour_facts);
+        assert(s1.tours@[v].nodes@ == s.kept_nodes(segment, v));
+        lemma_form_kept(s, segment, v, i, tf1);
     }
 }
 
@@ -1461,46 +1796,138 @@ pub proof fn lemma_total_len_le(t1: TView, t0: TView)
     assert(f1.to_set().subset_of(f0.to_set()));
     vstd::set_lib::lemma_len_subset(f1.to_set(), f0.to_set());
 }
+impl Schedule {
+    /// what the closure of transitions_ok builds on: the old invariant, the provider's type has a rotation-cycle structure
+    /// (vehicle_ok), the effect clause about the rotation cycles, the network is the same, no vehicle is added and a vehicle that
+    /// stays keeps its entry (hence its type)
+    pub open spec fn tr_step(&self, v: VehicleIdx, s1: &Schedule) -> bool {
+        &&& self.transitions_ok()
+        &&& self.vehicles@.contains_key(v)
+        &&& self.next_period_transitions@.contains_key(self.type_of(v))
+        &&& s1.network == self.network
+        &&& self.transitions_follow(v, s1.next_period_transitions@, s1.maintenance_violation, s1.vehicles@, s1.tours@)
+        &&& forall|u: VehicleIdx| #[trigger] s1.vehicles@.contains_key(u) ==> self.vehicles@.contains_key(u) && s1.vehicles@[u] == self.vehicles@[u]
+    }
+}
+/// the vehicle types and the keys of the transition table are the same
+pub proof fn lemma_tr_keys(s: &Schedule, v: VehicleIdx, s1: &Schedule)
+    requires s.tr_step(v, s1),
+    ensures
+        sched_types(s).no_duplicates(), sched_types(s1) == sched_types(s), sched_types(s).contains(s.type_of(v)),
+        s1.next_period_transitions@.contains_key(s.type_of(v)),
+        forall|vt: VehicleTypeIdx| #[trigger] s1.next_period_transitions@.contains_key(vt) <==> sched_types(s).contains(vt),
+{
+    hide(TView::wf);
+    let trs = s.next_period_transitions@;
+    assert forall|vt: VehicleTypeIdx| #[trigger] s1.next_period_transitions@.contains_key(vt) <==> sched_types(s).contains(vt) by {
+        assert(trs.contains_key(vt) <==> sched_types(s).contains(vt));
+    }
+}
+/// the structure of the provider's type holds only vehicles it held before: it is not longer (magnitude "fewer than 2^17 vehicles")
+pub proof fn lemma_tr_len(s: &Schedule, v: VehicleIdx, s1: &Schedule)
+    requires s.tr_step(v, s1), s1.next_period_transitions@.contains_key(s.type_of(v)),
+    ensures s1.next_period_transitions@[s.type_of(v)].total_len() <= s.next_period_transitions@[s.type_of(v)].total_len(),
+{
+    hide(TView::wf);
+    hide(TView::wf_cycles);
+    hide(TView::wf_lookup);
+    let ty = s.type_of(v);
+    let t0 = s.next_period_transitions@[ty];
+    let t1 = s1.next_period_transitions@[ty];
+    assert(t0.wf(&s.network, s.tours@));
+    assert(t1.wf(&s.network, s1.tours@));
+    lemma_wf_parts(t0, &s.network, s.tours@);
+    lemma_wf_parts(t1, &s.network, s1.tours@);
+    assert forall|x: VehicleIdx| #[trigger] t1@.lookup.contains_key(x) implies t0@.lookup.contains_key(x) by {
+        assert(t1.has_vehicle(x));
+        assert(s1.vehicles@.contains_key(x) && vtype(s1.vehicles@[x]) == ty);
+        assert(s.vehicles@.contains_key(x) && s.type_of(x) == ty);
+        assert(t0.has_vehicle(x));
+    }
+    lemma_total_len_le(t1@, t0@);
+}
+/// the number of vehicles in the cycles when the structures of all types but one are the same and that one is not longer
+pub proof fn lemma_len_sum_step(trs: Map<VehicleTypeIdx, Transition>, trs1: Map<VehicleTypeIdx, Transition>, vts: Seq<VehicleTypeIdx>, ty: VehicleTypeIdx)
+    requires
+        vts.no_duplicates(), vts.contains(ty),
+        forall|i: int| 0 <= i < vts.len() && vts[i] != ty ==> trs1[#[trigger] vts[i]] == trs[vts[i]],
+        trs1[ty].total_len() <= trs[ty].total_len(),
+    ensures len_sum(trs1, vts) <= len_sum(trs, vts),
+{
+    let trs2 = trs.insert(ty, trs1[ty]);
+    assert forall|i: int| 0 <= i < vts.len() implies trs1[#[trigger] vts[i]] == trs2[vts[i]] by {}
+    lemma_type_sums_frame(trs1, trs2, vts);
+    lemma_type_sums_insert(trs, vts, ty, trs1[ty]);
+}
+/// every structure holds exactly the vehicles of its type (the effect clause, in the words of transitions_ok)
+pub proof fn lemma_tr_membership(s: &Schedule, v: VehicleIdx, s1: &Schedule)
+    requires s.tr_step(v, s1),
+    ensures
+        forall|vt: VehicleTypeIdx, u: VehicleIdx| #![trigger s1.next_period_transitions@[vt].has_vehicle(u)] s1.next_period_transitions@.contains_key(vt)
+            ==> (s1.next_period_transitions@[vt].has_vehicle(u) <==> s1.vehicles@.contains_key(u) && s1.type_of(u) == vt),
+        forall|vt: VehicleTypeIdx| #[trigger] s1.next_period_transitions@.contains_key(vt) ==> s1.next_period_transitions@[vt].wf(&s1.network, s1.tours@),
+        s1.maintenance_violation as int == viol_sum(s1.next_period_transitions@, sched_types(s1)),
+{
+    hide(TView::wf);
+    hide(Schedule::transitions_ok);
+    let trs1 = s1.next_period_transitions@;
+    assert forall|vt: VehicleTypeIdx, u: VehicleIdx| #![trigger trs1[vt].has_vehicle(u)] trs1.contains_key(vt)
+        implies (trs1[vt].has_vehicle(u) <==> s1.vehicles@.contains_key(u) && s1.type_of(u) == vt) by {
+        assert(trs1[vt].has_vehicle(u) <==> (s1.vehicles@.contains_key(u) && vtype(s1.vehicles@[u]) == vt));
+    }
+}
+/// transitions_ok again
+pub proof fn lemma_transitions_step(s: &Schedule, v: VehicleIdx, s1: &Schedule)
+    requires s.tr_step(v, s1),
+    ensures s1.transitions_ok(),
+{
+    hide(TView::wf);
+    hide(Schedule::transitions_follow);
+    hide(Transition::has_vehicle);
+    lemma_tr_keys(s, v, s1);
+    lemma_tr_len(s, v, s1);
+    lemma_tr_membership(s, v, s1);
+    let trs = s.next_period_transitions@;
+    let trs1 = s1.next_period_transitions@;
+    let vts = sched_types(s);
+    let ty = s.type_of(v);
+    assert forall|i: int| 0 <= i < vts.len() && vts[i] != ty implies trs1[#[trigger] vts[i]] == trs[vts[i]] by {
+        assert(vts.contains(vts[i]));
+        assert(trs1.contains_key(vts[i]));
+        reveal(Schedule::transitions_follow);
+    }
+    lemma_len_sum_step(trs, trs1, vts, ty);
+}
 /// CLOSURE, transitions_ok: one consistent rotation-cycle structure per vehicle type, holding exactly the vehicles of the type;
 /// the violation is their sum; fewer than 2^17 vehicles (no vehicle is added)
 pub proof fn lemma_closure_transitions(s: &Schedule, segment: Segment, v: VehicleIdx, s1: &Schedule)
     requires s.rs_ok(), s.rs_effect(segment, v, s1),
     ensures s1.transitions_ok(),
 {
+    hide(Schedule::rs_ok);
+    hide(Schedule::rs_effect);
+    hide(Schedule::sched_ok);
+    hide(Schedule::formations_ok);
+    hide(Schedule::transitions_ok);
+    hide(Schedule::vehicle_ok);
+    hide(Schedule::tour_facts);
     hide(Schedule::formations_follow);
+    hide(Schedule::transitions_follow);
+    hide(Schedule::removes);
+    hide(Schedule::whole_tour);
+    hide(Schedule::maps_at);
+    hide(ids_valid);
     hide(usage_exact);
-    lemma_provider(s, v);
-    lemma_effect_maps(s, segment, v, s1);
-    let trs = s.next_period_transitions@;
-    let trs1 = s1.next_period_transitions@;
-    let vts = sched_types(s);
-    let ty = s.type_of(v);
-    assert(sched_types(s1) == vts);
-    assert(s.vehicle_ok(v));
-    assert(trs.contains_key(ty) && trs1.contains_key(ty));
-    assert(trs[ty].wf(&s.network, s.tours@) && trs1[ty].wf(&s.network, s1.tours@));
-    assert forall|x: VehicleIdx| #[trigger] trs1[ty]@.lookup.contains_key(x) implies trs[ty]@.lookup.contains_key(x) by {
-        assert(trs1[ty].has_vehicle(x));
-        assert(s1.vehicles@.contains_key(x) && vtype(s1.vehicles@[x]) == ty);
-        assert(s.vehicles@.contains_key(x) && s.type_of(x) == ty);
-        assert(trs[ty].has_vehicle(x));
+    lemma_rs_parts(s);
+    lemma_effect_basic(s, segment, v, s1);
+    lemma_provider_facts(s, v);
+    lemma_vehicle_ok_parts(s, v);
+    assert forall|u: VehicleIdx| #[trigger] s1.vehicles@.contains_key(u) implies s.vehicles@.contains_key(u) && s1.vehicles@[u] == s.vehicles@[u] by {
+        lemma_maps_at(s, segment, v, s1, u);
+        reveal(Schedule::maps_at);
     }
-    lemma_total_len_le(trs1[ty]@, trs[ty]@);
-    let trs2 = trs.insert(ty, trs1[ty]);
-    assert forall|i: int| 0 <= i < vts.len() implies trs1[#[trigger] vts[i]] == trs2[vts[i]] by {
-        assert(vts.contains(vts[i]));
-        assert(trs.contains_key(vts[i]));
-        assert(trs1.contains_key(vts[i]));
-    }
-    lemma_type_sums_frame(trs1, trs2, vts);
-    lemma_type_sums_insert(trs, vts, ty, trs1[ty]);
-    assert forall|vt: VehicleTypeIdx| #[trigger] trs1.contains_key(vt) <==> vts.contains(vt) by {
-        assert(trs.contains_key(vt) <==> vts.contains(vt));
-    }
-    assert forall|vt: VehicleTypeIdx, u: VehicleIdx| #![trigger trs1[vt].has_vehicle(u)] trs1.contains_key(vt)
-        implies (trs1[vt].has_vehicle(u) <==> s1.vehicles@.contains_key(u) && s1.type_of(u) == vt) by {
-        assert(trs1[vt].has_vehicle(u) <==> (s1.vehicles@.contains_key(u) && vtype(s1.vehicles@[u]) == vt));
-    }
+    assert(s.tr_step(v, s1));
+    lemma_transitions_step(s, v, s1);
 }
 
 // ---- sched_ok: listing, costs --------------------------------------------------------------------------------
@@ -1572,13 +1999,18 @@ pub proof fn lemma_listing_follows(s: &Schedule, segment: Segment, v: VehicleIdx
     requires s.rs_ok(), s.rs_effect(segment, v, s1), s.listing_follows(segment, v, s1),
     ensures listing_exact(s1),
 {
-    hide(Schedule::transitions_follow);
-    hide(Schedule::formations_follow);
-    hide(usage_exact);
-    lemma_provider(s, v);
-    lemma_effect_maps(s, segment, v, s1);
+    hide(Schedule::rs_ok);
+    hide(Schedule::rs_effect);
+    hide(Schedule::so_vehicles);
+    hide(Schedule::so_network);
+    hide(Schedule::so_costs_cover);
+    hide(Schedule::whole_tour);
+    hide(Schedule::maps_at);
+    lemma_so_parts(s);
     let vs = sched_vehicles(s);
     let vs1 = sched_vehicles(s1);
+    lemma_maps_at(s, segment, v, s1, v);
+    assert(s.tours@.contains_key(v)) by { reveal(Schedule::maps_at); }
     assert(vs.contains(v));
     if s.whole_tour(segment, v) {
         let p = choose|p: int| 0 <= p < vs.len() && vs[p] == v && vs1 == #[trigger] vs.remove(p);
@@ -1586,6 +2018,8 @@ pub proof fn lemma_listing_follows(s: &Schedule, segment: Segment, v: VehicleIdx
     }
     assert forall|u: VehicleIdx| #[trigger] vs1.contains(u) <==> s1.tours@.contains_key(u) by {
         assert(vs.contains(u) <==> s.tours@.contains_key(u));
+        lemma_maps_at(s, segment, v, s1, u);
+        reveal(Schedule::maps_at);
     }
 }
 /// the listed tours' costs after one step: the duplicate-free listing vs1 lists the vehicles of the duplicate-free listing vs --
@@ -1623,32 +2057,30 @@ pub proof fn lemma_closure_listing(s: &Schedule, segment: Segment, v: VehicleIdx
     requires s.rs_ok(), s.rs_effect(segment, v, s1), listing_exact(s1),
     ensures s1.so_listing(), s1.so_costs_cover(),
 {
-    hide(Schedule::transitions_follow);
-    hide(Schedule::formations_follow);
-    hide(Schedule::formations_ok);
-    hide(Schedule::transitions_ok);
-    hide(Schedule::vehicle_ok);
-    hide(Schedule::provider_shrunk);
-    hide(Schedule::vehicle_gone);
-    hide(Schedule::seg_removable);
-    hide(Schedule::real_tour_ok);
-    hide(usage_exact);
-    hide(usage_exact_for);
-    hide(ids_valid);
-    hide(sorted_cmp);
-    hide(depots_ok);
-    lemma_provider(s, v);
-    lemma_effect_maps(s, segment, v, s1);
+    hide(Schedule::rs_ok);
+    hide(Schedule::rs_effect);
+    hide(Schedule::so_vehicles);
+    hide(Schedule::so_network);
+    hide(Schedule::whole_tour);
+    hide(Schedule::maps_at);
+    lemma_so_parts(s);
+    lemma_effect_costs(s, segment, v, s1);
     let vs = sched_vehicles(s);
     let vs1 = sched_vehicles(s1);
     let gone = s.whole_tour(segment, v);
+    lemma_maps_at(s, segment, v, s1, v);
+    assert(s.tours@.contains_key(v)) by { reveal(Schedule::maps_at); }
     assert(vs.contains(v));
     assert forall|u: VehicleIdx| u != v && #[trigger] vs.contains(u) implies s1.tours@[u] == s.tours@[u] by {
         assert(s.tours@.contains_key(u));
+        lemma_maps_at(s, segment, v, s1, u);
+        reveal(Schedule::maps_at);
     }
     assert forall|u: VehicleIdx| #[trigger] vs1.contains(u) <==> vs.contains(u) && !(gone && u == v) by {
         assert(vs.contains(u) <==> s.tours@.contains_key(u));
         assert(vs1.contains(u) <==> s1.tours@.contains_key(u));
+        lemma_maps_at(s, segment, v, s1, u);
+        reveal(Schedule::maps_at);
     }
     lemma_costs_step(s.tours@, s1.tours@, vs, vs1, v, gone);
 }
@@ -1669,39 +2101,39 @@ pub proof fn lemma_closure_listed(s: &Schedule, segment: Segment, v: VehicleIdx,
     ensures s.listings_kept(s1),
 {
     hide(Schedule::rs_ok);
-    hide(Schedule::transitions_follow);
-    hide(Schedule::formations_follow);
-    hide(Schedule::maps_follow);
-    hide(Schedule::provider_shrunk);
-    hide(Schedule::other_tours_untouched);
-    hide(Schedule::seg_removable);
+    hide(Schedule::rs_effect);
+    hide(Schedule::listed_ok);
+    assert forall|u: VehicleIdx| s.vehicles@.contains_key(u) && s.listed_ok(u) && #[trigger] s1.vehicles@.contains_key(u) implies s1.listed_ok(u) by {
+        lemma_listed_at(s, segment, v, s1, u);
+    }
+}
+/// ... for one vehicle
+pub proof fn lemma_listed_at(s: &Schedule, segment: Segment, v: VehicleIdx, s1: &Schedule, u: VehicleIdx)
+    requires s.rs_ok(), s.rs_effect(segment, v, s1), s.vehicles@.contains_key(u), s.listed_ok(u), s1.vehicles@.contains_key(u),
+    ensures s1.listed_ok(u),
+{
+    hide(Schedule::rs_ok);
+    hide(Schedule::rs_effect);
     hide(Schedule::whole_tour);
-    hide(Schedule::real_tour_ok);
-    hide(usage_exact);
-    hide(usage_exact_for);
-    hide(ids_valid);
     hide(ids_lose);
     hide(sorted_cmp);
-    lemma_provider(s, v);
-    lemma_effect_maps(s, segment, v, s1);
+    lemma_effect_grouped(s, segment, v, s1);
+    lemma_maps_at(s, segment, v, s1, u);
     let ty = s.type_of(v);
+    let tu = s.type_of(u);
     let g0 = s.vehicle_ids_grouped_and_sorted@;
     let g1 = s1.vehicle_ids_grouped_and_sorted@;
-    assert forall|u: VehicleIdx| s.vehicles@.contains_key(u) && s.listed_ok(u) && #[trigger] s1.vehicles@.contains_key(u) implies s1.listed_ok(u) by {
-        let tu = s.type_of(u);
-        assert(s1.type_of(u) == tu);
-        if s.whole_tour(segment, v) {
-            assert(s.vehicle_gone_c(v, s1.vehicles@, s1.tours@, g1));
-            assert(g1 == g0.insert(ty, g1[ty]));
-            if tu == ty {
-                assert(u != v);
-                lemma_lose_keeps(s.listing(ty), g1[ty]@, v, u);
-            } else {
-                assert(g1.contains_key(tu) && g1[tu] == g0[tu]);
-            }
+    assert(s1.type_of(u) == tu);
+    if s.whole_tour(segment, v) {
+        assert(g1 == g0.insert(ty, g1[ty]));
+        if tu == ty {
+            assert(u != v);
+            lemma_lose_keeps(s.listing(ty), g1[ty]@, v, u);
         } else {
-            assert(g1 == g0);
+            assert(g1.contains_key(tu) && g1[tu] == g0[tu]);
         }
+    } else {
+        assert(g1 == g0);
     }
 }
 
@@ -1712,14 +2144,22 @@ pub proof fn lemma_closure_rs_ok(s: &Schedule, segment: Segment, v: VehicleIdx, 
     requires s.rs_ok(), s.rs_effect(segment, v, s1), listing_exact(s1), s1.costs <= sched_cost_bound(),
     ensures s1.rs_ok(),
 {
-    hide(Schedule::transitions_follow);
-    hide(Schedule::formations_follow);
+    hide(Schedule::rs_effect);
+    hide(Schedule::sched_ok);
     hide(Schedule::formations_ok);
     hide(Schedule::transitions_ok);
+    hide(Schedule::so_network);
     hide(Schedule::so_vehicles);
     hide(Schedule::so_listing);
     hide(Schedule::so_costs_cover);
+    hide(Schedule::formations_follow);
+    hide(Schedule::transitions_follow);
+    hide(Schedule::removes);
+    hide(Schedule::removed_nodes);
     hide(listing_exact);
+    hide(ids_valid);
+    hide(usage_exact);
+    lemma_effect_basic(s, segment, v, s1);
     lemma_closure_vehicles(s, segment, v, s1);
     lemma_closure_formations(s, segment, v, s1);
     lemma_closure_transitions(s, segment, v, s1);
